@@ -171,7 +171,8 @@ OpUids(ev) ==
            IF UserPolWellFormed(ev.pol) /\ UserPolV(g, ev.pol)
            THEN UNION GrantCombos(g.st, g.attrs, ev.pol) ELSE {}
       [] ev.op \in {"encaps", "header"} ->
-           IF ev.mpk \in DOMAIN g.mpks /\ EncPolValid(g.mpks[ev.mpk].st, g.mpks[ev.mpk].attrs, ev.pol)
+           \* (also for clauses naming two attributes of one dimension: an aliased identifier can make them look like a right)
+           IF ev.mpk \in DOMAIN g.mpks /\ \A i \in 1..Len(ev.pol) : AtomsResolve(g.mpks[ev.mpk].st, g.mpks[ev.mpk].attrs, ev.pol[i])
            THEN UNION {ClauseCombo(g.mpks[ev.mpk].st, g.mpks[ev.mpk].attrs, ev.pol[i]) : i \in 1..Len(ev.pol)}
            ELSE {}
       [] ev.op = "update" -> LiveUids(g.st)
